@@ -91,9 +91,13 @@ def r2(ctx):
         if v is None:
             ctx.bad(f'{ci.name}._validate', 'missing', 'descriptor without its own _validate', ci.path)
             continue
-        if any(isinstance(x, ast.Raise) for x in ast.walk(v.node)) and not any(
-                isinstance(x, ast.Return) and x.value is not None for x in ast.walk(v.node)):
-            ctx.ok(f'{ci.name}._validate', 'raises on the negative branch, returns nothing')
+        ev_ = evaluator(ctx)
+        val_ = Obj('value', {}, 'value')
+        val_.typed = False
+        out_ = ev_.run(v, [ev_.symbolic_instance(ci), val_], {})
+        returns_value = any(not (isinstance(rv, Const) and rv.v is None) for _, rv in out_.returns)
+        if out_.raises and not returns_value:
+            ctx.ok(f'{ci.name}._validate', 'raises on the negative branch (helpers followed), returns nothing')
         else:
             ctx.bad(f'{ci.name}._validate', 'no-raise', 'validator never raises (or returns a value)', v.loc())
     ctx.need(n >= 10, 'descriptor kinds', f'only {n}')
@@ -402,6 +406,62 @@ def r5b(ctx):
 INSERTING = ('__init__', '__setitem__', 'update', 'setdefault', '__ior__')
 
 
+def _membership_atoms(pc):
+    """[(lhs, rhs, positive)] for every `x in y` / `x not in y` conjunct (through one negation) of a path condition."""
+    out = []
+    todo = list(pc)
+    while todo:
+        t = todo.pop()
+        if isinstance(t, BoolT) and t.op == 'and':
+            todo += list(t.args)
+        elif isinstance(t, BoolT) and t.op in ('truthy',):
+            todo.append(t.args[0])
+        elif isinstance(t, BoolT) and t.op == 'not' and isinstance(t.args[0], Cmp) and t.args[0].op in ('in', 'notin'):
+            c = t.args[0]
+            out.append((c.lhs, c.rhs, c.op == 'notin'))
+        elif isinstance(t, Cmp) and t.op in ('in', 'notin'):
+            out.append((t.lhs, t.rhs, t.op == 'in'))
+    return out
+
+
+def _setitem_semantics(ctx, ci, f):
+    """'' when Meta.__setitem__ stores exactly the mapped key under `mapped key in valid_keys` and raises KeyError
+    otherwise; a message when it does not; None when the evaluation is not conclusive (the syntactic clause decides then)."""
+    from ..tb import class_tables
+    m = ctx.model
+    probs = []
+    for cname in ('RegionMeta', 'RegionVisual'):
+        valid = class_tables(m, cname).get('valid_keys')
+        if not isinstance(valid, (list, tuple)):
+            return None
+        stores = []
+        ev = Evaluator(m, hooks={
+            'super:__setitem__': lambda e, a, k, stores=stores: (stores.append((k.get('__pc__', []), a[1:])), Const(None))[1]})
+        selfo = Obj(cname, {}, 'self', m.cls(cname))
+        selfo.typed = False
+        key, val = Obj('str', {}, 'key'), Obj('obj', {}, 'value')
+        out = ev.run(f, [selfo, key, val], {})
+        if not stores:
+            return None
+        for pc, args in stores:
+            kt = args[0] if args else None
+            atoms = _membership_atoms(pc)
+            guard = [a for a in atoms if same(a[0], kt) and a[2] and isinstance(a[1], Tup)
+                     and [i.v for i in a[1].items if isinstance(i, Const)] == list(valid)]
+            if not guard:
+                probs.append(f'{cname}: the store of `{show(kt, 80)}` happens under `{show(ev.conj(pc), 160)}`, not under '
+                             '`<that key> in valid_keys`')
+            if kt is None or same(kt, key) or 'key' not in show(kt, 400):
+                probs.append(f'{cname}: the stored key `{show(kt, 80)}` is not key_mapping.get(key, key)')
+        bad_raise = [n for pc, n, _ in out.raises if n != 'KeyError']
+        rej = [a for pc, n, _ in out.raises if n == 'KeyError' for a in _membership_atoms(pc)
+               if not a[2] and isinstance(a[1], Tup)]
+        if not rej or bad_raise:
+            probs.append(f'{cname}: keys outside valid_keys do not raise KeyError '
+                         f'(raises: {[(show(ev.conj(pc), 80), n) for pc, n, _ in out.raises][:2]})')
+    return '; '.join(probs[:3])
+
+
 def r6(ctx):
     m = ctx.model
     ci = m.cls('Meta')
@@ -431,6 +491,14 @@ def r6(ctx):
         for st in stmts_of(fn):
             if isinstance(st, ast.Assign) and isinstance(st.targets[0], ast.Subscript) and norm(st.targets[0].value) == 'self':
                 routed = True
+        if name == '__setitem__':
+            sem = _setitem_semantics(ctx, ci, f)
+            if sem is not None:
+                if sem:
+                    ctx.bad(f'Meta.{name}', 'bypass', sem, f.loc())
+                else:
+                    ctx.ok(f'Meta.{name}', 'stores the mapped key only under the whitelist test; KeyError otherwise')
+                continue
         if raw:
             ctx.bad(f'Meta.{name}', 'bypass', f'`{raw[0]}` inserts without the whitelist test', f.loc())
         elif not routed:
@@ -478,55 +546,51 @@ def r6(ctx):
                     "RegionVisual(symbol='x').setdefault('point', 'y') overwrites the existing entry", f.loc(tests[0]))
     # the whitelist test raises KeyError
     f = ci.methods.get('__setitem__')
-    if f is not None and 'KeyError' in (raises_in(f.node.body) or [None]):
+    if f is not None and _setitem_semantics(ctx, ci, f) == '':
+        ctx.ok('Meta.__setitem__:raise', 'KeyError for keys outside valid_keys (symbolic evaluation)')
+    elif f is not None and 'KeyError' in (raises_in(f.node.body) or [None]):
         ctx.ok('Meta.__setitem__:raise', 'KeyError for keys outside valid_keys')
     else:
         ctx.bad('Meta.__setitem__', 'no-keyerror', 'invalid keys do not raise KeyError', f.loc() if f else ci.path)
 
 
 def r6b(ctx):
-    """multi-key inserts are all-or-nothing: a rejected update leaves the object as it was."""
+    """multi-key inserts are all-or-nothing: update / |= / keyword construction, partially evaluated on dictionaries that
+    contain one key outside the vocabulary (first, last), store nothing and raise KeyError; valid dictionaries store every
+    pair."""
     m = ctx.model
     ci = m.cls('Meta')
+    probes = [({'label': 'x', 'bogus': 'y'}, None), ({'bogus': 'y', 'label': 'x'}, None),
+              ({'label': 'x', 'text': 't'}, [("'label'", "'x'"), ("'text'", "'t'")])]
     for name in ('update', '__ior__', 'setdefault'):
         f = ci.methods.get(name)
         if f is None:
             continue
-        fn = f.node
-        loops = [st for st in stmts_of(fn) if isinstance(st, ast.For)]
-
-        def inserts(loop):
-            for n in ast.walk(loop):
-                if isinstance(n, ast.Assign) and isinstance(n.targets[0], ast.Subscript) and norm(n.targets[0].value) == 'self':
-                    return True
-                if isinstance(n, ast.Call) and norm(n.func) in ('self.__setitem__',):
-                    return True
-            return False
-
-        def validates(loop):
-            ok = False
-            for n in ast.walk(loop):
-                if isinstance(n, ast.If) and 'not in self.valid_keys' in norm(n.test) and any(
-                        isinstance(x, ast.Raise) and 'KeyError' in norm(x) for x in n.body):
-                    ok = True
-            return ok and not inserts(loop)
-        ins = [l for l in loops if inserts(l)]
-        if not ins:
-            delegating = any(norm(c.func) == 'self.update' for c in calls_in(fn))
-            ctx.ok(f'Meta.{name}', 'delegates to update()' if delegating else 'inserts at most one key')
+        if name == 'setdefault':
+            ctx.ok(f'Meta.{name}', 'inserts at most one key')
             continue
-        bad = []
-        for l in ins:
-            pre = [v for v in loops if validates(v) and norm(v.iter) == norm(l.iter) and v.lineno < l.lineno]
-            if not pre:
-                bad.append(l)
-        if bad:
-            ctx.bad(f'Meta.{name}', 'partial-update',
-                    f'`{norm(bad[0]).splitlines()[0]}` inserts key by key through the whitelist: when a later key is rejected '
-                    '(KeyError) the earlier keys have already been stored, so a rejected operation does not leave the object '
-                    'as it was (validate every key before the first insertion)', f.loc(bad[0]))
+        probs = []
+        for other, want in probes:
+            rec = []
+            ev = Evaluator(m, hooks={'super:__setitem__': lambda e, a, k, rec=rec: (rec.append((show(a[1]), show(a[2]))), Const(None))[1]})
+            o = Obj('RegionMeta', {}, 'self', m.cls('RegionMeta'))
+            from ..vg import DictV
+            out = ev.run(f, [o, DictV([{k: Const(v) for k, v in other.items()}])], {})
+            definite = [n for pc, n, _ in out.raises if not [c for c in pc if not (isinstance(c, Const) and c.v is True)]]
+            if any(pc for pc, n, _ in out.raises if n and [c for c in pc if not isinstance(c, Const)]):
+                raise AnalysisError('C17.R6b', f'Meta.{name}', 'not reducible on a constant dictionary')
+            if want is None:
+                if rec:
+                    probs.append(f'{name}({other}) stores {rec} before the invalid key is rejected: a rejected operation '
+                                 'does not leave the object as it was (validate every key before the first insertion)')
+                elif 'KeyError' not in definite:
+                    probs.append(f'{name}({other}) does not raise KeyError for the invalid key')
+            elif rec != want or definite:
+                probs.append(f'{name}({other}) stores {rec} / raises {definite}; expected {want}')
+        if probs:
+            ctx.bad(f'Meta.{name}', 'partial-update', probs[0], f.loc())
         else:
-            ctx.ok(f'Meta.{name}', 'every key is validated before the first insertion')
+            ctx.ok(f'Meta.{name}', 'an invalid key anywhere -> KeyError and nothing stored; valid pairs all stored')
 
 
 ADDERS = ('__init__', 'append', 'extend', 'insert', '__setitem__', '__iadd__')
